@@ -6,7 +6,26 @@ COMMON_ASSUMPTIONS = [
     'machine arithmetic: Verus checks every +,-,cast of the extracted code for overflow (obligation <fn>.body-safety); spec-side integers are mathematical',
 ]
 
+KX = {
+    'U-incr32': {'name': 'U-incr32', 'harness_file': 'bounds.harness.rs', 'target': 'src/store/fs/bounds.rs', 'harnesses': ['incr32'],
+                 'function': 'increment_by_one (src/store/fs/bounds.rs)', 'class': 'complete', 'bound': 'fixed width: every 32-byte id (loop unwound 32 times, unwinding assertion on)',
+                 'labels': ['bounds.increment_by_one.incr-32'], 'tier': 'quick'},
+    'U-incr-var': {'name': 'U-incr-var', 'harness_file': 'bounds.harness.rs', 'target': 'src/store/fs/bounds.rs', 'harnesses': ['incr_var'],
+                   'function': 'increment_by_one (src/store/fs/bounds.rs)', 'class': 'bounded', 'bound': 'slice length <= 6',
+                   'labels': ['bounds.increment_by_one.incr-var'], 'tier': 'quick'},
+}
+
+A_REDB = 'A-redb: a redb table is a finite map ordered by the tuple order of its key type (component-wise, byte-wise lexicographic for &[u8] and [u8; N]); get/insert/remove are map operations; range(b) yields exactly the rows within b in ascending order; retain_in / extract_from_if remove exactly the rows in b for which the predicate holds; transactions, commit and durability are not modelled'
+A_INCR = 'increment_by_one is used in Verus units through the assumed contract incr_rel (same-length big-endian +1, false iff all 0xFF); that contract is proved on the real function by Kani for 32-byte ids (complete) and for slices up to 6 bytes (bounded, not counted)'
+
 PROPS = {
+    'C05': {
+        'vx': ['U-bounds'],
+        'kx': [KX['U-incr32'], KX['U-incr-var']],
+        'assumptions': [A_REDB, A_INCR, 'bytes::Bytes is an abstract byte string (view Seq<u8>): new/to_vec/clone/From<Vec<u8>>/== assumed to preserve the bytes'],
+        'not_covered': ['QueryIterator::next (offset/limit window, empty skipping after grouping, order of author filter and grouping): Verus rejects its closure parameter patterns and `break <value>`; Kani cannot run redb/Bytes'],
+        'explanation': 'Exactness of every range bound used by queries (author/key/prefix on both indexes), index choice, the latest-per-key grouping step and point lookups.',
+    },
     'C11': {
         'vx': ['U-peer'],
         'kx': [],
